@@ -636,6 +636,9 @@ type PluginCfg struct {
 	// OnShutdownServe: when the shutdown request arrives (hook grpc.shutdown), accept this brokered
 	// id first -- a broker message sent after the host has closed its broker.
 	OnShutdownServe uint32 `json:"on_shutdown_serve,omitempty"`
+	// HoldEvent/HoldMs: the goroutine reaching this hook point sleeps there (every time)
+	HoldEvent string `json:"hold_event,omitempty"`
+	HoldMs    int    `json:"hold_ms,omitempty"`
 }
 
 type StdioWrite struct {
